@@ -32,7 +32,7 @@ FIRST = [s for s in SYMBOLS if s[0] in ("B", "E")]
 STEPS = ("h", "d", "y")  # +1 hour: a lot acquired and partly disposed of on the same calendar day (the to-date day)
 SECOND: List[History] = [
     ((H.B(5, 4, acct=2), "="), (H.M(2, 0, src=2, dst=1), "d"), (H.S(1, acct=1), "y")),
-    ((H.B(2, 1, acct=0), "="), (H.B(4, 1, acct=0), "d"), (H.S(1, acct=0), "400d")),
+    ((H.B(2, 1, acct=0), "="), (H.B(4, 1, acct=0, fee="1/4"), "d"), (H.S(1, acct=0), "400d")),  # second lot bought with a fee paid in crypto
 ]
 SCHEDULES = {"fifo": [(1970, "fifo")], "lifo": [(1970, "lifo")], "hifo": [(1970, "hifo")], "lofo": [(1970, "lofo")]}
 
@@ -43,22 +43,32 @@ def never_overdrawn(specs: Sequence[Dict[str, Any]]) -> bool:
     return MA.overdraft_verdict(specs)[0] == "must_accept"
 
 
-def build_case(h1: History, second: Optional[int], sch: str, to_date: Optional[date]) -> Optional[Dict[str, Any]]:
+def mat(h: History, row_order: str, tz: int = 0) -> Optional[List[Dict[str, Any]]]:
+    """tz != 0: every timestamp written in that UTC offset at an hour where its own calendar date differs from the UTC date"""
+    from datetime import datetime, timezone
+
+    if not tz:
+        return H.materialize(h, row_order=row_order, uid=True)
+    h2 = tuple((it[0], it[1], tz) for it in h)
+    return H.materialize(h2, row_order=row_order, uid=True, base=datetime(2020, 3, 1, 18 if tz > 0 else 2, 0, 0, tzinfo=timezone.utc))
+
+
+def build_case(h1: History, second: Optional[int], sch: str, to_date: Optional[date], tz: int = 0) -> Optional[Dict[str, Any]]:
     from rp2verif import frdriver as D
 
-    s1 = H.materialize(h1, row_order="reverse", uid=True)
+    s1 = mat(h1, "reverse", tz)
     if s1 is None or not never_overdrawn(s1):
         return None
     assets = {"B1": s1}
     if second is not None:
-        s2 = H.materialize(SECOND[second], row_order="chrono", uid=True)
+        s2 = mat(SECOND[second], "chrono", tz)
         assert s2 is not None and never_overdrawn(s2)
         assets["B2"] = s2
     sheets = {}
     for a in list(assets):
         sheets[a], assets[a] = D.to_sheet(assets[a], a)
-    return {"label": f"{sch} -t {to_date}: {H.hist_str(h1)}" + (f" || B2: {H.hist_str(SECOND[second])}" if second is not None else ""),
-            "hist": h1, "second": second, "schedule_name": sch,
+    return {"label": f"{sch} -t {to_date}: {H.hist_str(h1)}" + (f" || B2: {H.hist_str(SECOND[second])}" if second is not None else "") + (f" [all timestamps at UTC{tz / 60:+.0f}h]" if tz else ""),
+            "hist": h1, "second": second, "schedule_name": sch, "tz": tz,
             "assets": assets, "sheets": sheets, "schedule": SCHEDULES[sch], "from": None, "to": to_date, "country": "us", "lang": "en",
             "reports": ["open_positions"], "allow_negative": False}
 
@@ -67,6 +77,7 @@ def check(case: Dict[str, Any], res: Dict[str, Any]) -> Tuple[List[str], Dict[st
     from rp2verif import fullreport as FR
     from rp2verif import odsread as O
     from rp2verif.models import accounts as MA
+    from rp2verif.models.lots import F, parse_ts
 
     problems: List[str] = []
     counts = {"asset_rows": 0, "exchange_rows": 0, "assets_with_open_position": 0}
@@ -83,6 +94,15 @@ def check(case: Dict[str, Any], res: Dict[str, Any]) -> Tuple[List[str], Dict[st
         D = res["dumps"][asset]
         bal = MA.balances(specs, td)
         lots = {r["row"]: r for r in D["in_rows"]}  # lots acquired up to the to-date
+        # the same from the input rows alone: lots whose OWN calendar date is on or before the to-date; cost = amount x price + fee
+        # (a fee given in crypto is worth fee x price)
+        want_lots = {s["row"]: F(s["crypto_in"]) * F(s["spot_price"]) + F(s.get("fiat_fee") or 0) + F(s.get("crypto_fee") or 0) * F(s["spot_price"])
+                     for s in specs if s["table"] == "in" and (td is None or parse_ts(s["timestamp"]).date() <= td)}
+        if sorted(want_lots) != sorted(lots):
+            problems.append(f"{asset}: lots of rows {sorted(lots)} are in the computed data, rows acquired on or before the to-date: {sorted(want_lots)}")
+        for row, c in want_lots.items():
+            if row in lots and lots[row]["fiat_in_with_fee"] != c:
+                problems.append(f"{asset}: lot row {row} has cost (with fees) {float(lots[row]['fiat_in_with_fee'])} in the computed data, input says {float(c)}")
         consumed: Dict[int, Fraction] = {}
         realized = Fraction(0)
         for w in D["detail"]:
@@ -178,7 +198,8 @@ def judge(st: Stats, case: Dict[str, Any]) -> None:
 
     st.inc("evaluations")
     res = G.run(case)
-    payload = {"case": {"hist": case["hist"], "second": case["second"], "schedule_name": case["schedule_name"], "to": str(case["to"]) if case["to"] else None}}
+    payload = {"case": {"hist": case["hist"], "second": case["second"], "schedule_name": case["schedule_name"], "to": str(case["to"]) if case["to"] else None,
+                        "tz": case.get("tz", 0)}}
     tag = case["label"]
     if res["error"]:
         st.violation(dict(payload, signature=f"C15 no report: {res['stage']} / {res['error'].split(':')[0]} / {res.get('where', '')}", what=f"{tag} :: {res['stage']}: {res['error'][:200]}"))
@@ -237,6 +258,15 @@ def cases(tier: str) -> List[Dict[str, Any]]:
                             c = build_case(h, second, m, td)
                             if c:
                                 out.append(c)
+                if d <= 2:
+                    # the same history with every timestamp at +09:00 / -05:00 (own date != UTC date), to-dates on the own dates
+                    for tz in (540, -300):
+                        s1z = mat(h, "chrono", tz)
+                        s2z = mat(SECOND[1], "chrono", tz)
+                        for td in to_dates([s1z or [], s2z or []], "all"):
+                            c = build_case(h, 1, "fifo", td, tz)
+                            if c:
+                                out.append(c)
     return out
 
 
@@ -276,7 +306,7 @@ def main(tier: str, budget_s: Optional[float] = None) -> int:
             "asset B1 = every history up to depth 3 over an 11-symbol alphabet on 3 accounts (2 exchanges x 2 holders: purchases, income, sales with "
             "and without fee, transfers with and without fee across holders) in which no account is ever overdrawn; x second asset (none / 2 fixed "
             "multi-holder histories) x method x to-date (none, each year end, each transaction day and the day before; fewer at depth 3 in the quick "
-            "tier). One evaluation = one real open_positions generation read back. non-trivial = at least 2 (exchange, holder) rows"
+            "tier); depth <= 2 also with every timestamp at +09:00 / -05:00 (own date != UTC date). One evaluation = one real open_positions generation read back. non-trivial = at least 2 (exchange, holder) rows"
         ),
         "alphabet": [H.sym_str(s) for s in SYMBOLS],
         "exhaustive": bool(complete),
@@ -302,7 +332,7 @@ def replay(path: str) -> int:
     with open(path, encoding="utf-8") as f:
         p = json.load(f)
     c = p["case"]
-    case = build_case(_to_tuple(c["hist"]), c["second"], c["schedule_name"], date.fromisoformat(c["to"]) if c["to"] else None)
+    case = build_case(_to_tuple(c["hist"]), c["second"], c["schedule_name"], date.fromisoformat(c["to"]) if c["to"] else None, c.get("tz", 0))
     assert case is not None
     ctx = mp.get_context("fork")
     with ctx.Pool(1, initializer=init) as pool:
